@@ -30,8 +30,9 @@ PROPS = {
                      # held tasks sitting in limited queues while others are released past them
                      ("hold", 0.25, {"features": {"queues": "always", "max_tasks": 5}})],
                 mc=["MC_queue", "MC_base", "MC_trig:MC_trig2", "MC_trig:MC_trig_obs!", "MC_trig", "MC_trig:MC_trig_crash"]),
-    "C07": dict(mix=[("plain", 0.4, {"features": {"future": True}}), ("stopcmds", 0.3, {}),
-                     ("stopcmds", 0.3, {"features": {"future": "always", "max_fcp": 6}})], mc=["MC_base", "MC_cmds:MC_cmds1"]),
+    "C07": dict(mix=[("plain", 0.3, {"features": {"future": True}}), ("stopcmds", 0.2, {}),
+                     ("stopcmds", 0.5, {"stopkind": "point", "features": {"future": "always", "max_fcp": 6}})],
+                mc=["MC_base", "MC_cmds:MC_cmds1"]),
     "C09": dict(mix=[("plain", 0.4, {}), ("faults", 0.6, {"features": {"retries": "always"}})], mc=["MC_msgs"]),
     "C10": dict(mix=[("faults", 0.5, {}), ("cmds", 0.5, {"kinds": ["trigger"], "dups": True,
                                                              "features": {"retries": "always", "queues": "always"}})], mc=["MC_msgs"]),
@@ -46,15 +47,17 @@ PROPS = {
     "C46": dict(mix=[("warm", 1.0, {})], mc=["MC_warm"]),
     "C08": dict(mix=[("cmds", 0.5, {"kinds": ["trigger", "trigger", "set"]}),
                      ("cmds", 0.5, {"kinds": ["trigger", "set"], "restart": True})], mc=["MC_flows"]),
-    "C27": dict(mix=[("cmds", 0.6, {"kinds": ["reload"]}), ("cmds", 0.4, {"kinds": ["remove_reload", "reload"]})], mc=["MC_reload"]),
-    "C28": dict(mix=[("cmds", 0.3, {"kinds": ["trigger"]}), ("cmds", 0.2, {"kinds": ["trigger_reload", "trigger", "reload"]}),
-                     ("cmds", 0.25, {"kinds": ["group_trigger"]}),
-                     ("cmds", 0.25, {"kinds": ["group_trigger", "retrigger_failed", "retrigger_failed"], "mode": "any",
-                                     "features": {"custom": "always", "started": True}})], mc=["MC_trig:MC_trig2", "MC_trig", "MC_trig:MC_trig_crash"]),
+    "C27": dict(mix=[("cmds", 0.4, {"kinds": ["reload"]}), ("cmds", 0.6, {"kinds": ["remove_reload", "remove_reload", "reload"]})], mc=["MC_reload"]),
+    "C28": dict(mix=[("cmds", 0.2, {"kinds": ["trigger"]}), ("cmds", 0.15, {"kinds": ["trigger_reload", "trigger", "reload"]}),
+                     ("cmds", 0.2, {"kinds": ["group_trigger"]}),
+                     ("cmds", 0.45, {"kinds": ["retrigger_failed", "retrigger_failed", "group_trigger"], "mode": "any",
+                                     "features": {"custom": "always", "started": "always"}})], mc=["MC_trig:MC_trig2", "MC_trig", "MC_trig:MC_trig_crash"]),
     "C29": dict(mix=[("cmds", 1.0, {"kinds": ["set"]})], mc=["MC_trig:MC_trig2", "MC_trig"]),
     "C30": dict(mix=[("cmds", 1.0, {"kinds": ["remove", "remove", "trigger", "retrig_remove"]})], mc=["MC_remove"]),
     "C25": dict(mix=[("plain", 0.3, {"policy": {"datastore": True}}), ("faults", 0.2, {"policy": {"datastore": True}}),
-                     ("cmds", 0.3, {"policy": {"datastore": True}}), ("hold", 0.2, {"policy": {"datastore": True}})],
+                     ("cmds", 0.2, {"policy": {"datastore": True}}), ("hold", 0.15, {"policy": {"datastore": True}}),
+                     # a status that goes A -> B -> A between two publications
+                     ("cmds", 0.15, {"policy": {"datastore": True}, "kinds": ["flipflop"], "features": {"queues": "always"}})],
                 mc=["MC_base"]),
     "C33": dict(mix=[("xtrig", 1.0, {})], mc=[]),
     "C32": dict(mix=[("expire", 1.0, {})], mc=[]),
